@@ -596,6 +596,21 @@ def flag(run, P, rule):
         if isinstance(x, ast.Call) and isinstance(x.func, ast.Attribute) \
                 and x.func.attr == "startswith" and x.args:
             vprefix = string_value(x.args[0])
+    if vprefix is None:
+        # the test may live in a helper predicate (is_cond_variable(name)): read it there
+        for x in ast.walk(f.node):
+            if isinstance(x, ast.Call) and isinstance(x.func, ast.Name) and len(x.args) == 1:
+                h = P.resolve_name(f, x.func.id)
+                if hasattr(h, "node") and hasattr(h, "params") and len(h.params) == 1:
+                    for y in ast.walk(h.node):
+                        if isinstance(y, ast.Call) and isinstance(y.func, ast.Attribute) \
+                                and y.func.attr == "startswith" and dotted(y.func.value) == h.params[0] \
+                                and y.args and string_value(y.args[0]):
+                            vprefix = string_value(y.args[0])
+                    if vprefix is None and any(isinstance(y, ast.Call) and (dotted(y.func) or "").startswith("re.")
+                                               for y in ast.walk(h.node)):
+                        raise AnalysisError(f"{h.name}: flags are recognised by a regular expression; "
+                                            f"not read by this clause")
     run.ob(rule, f, f.node, bprefix is not None and bprefix == vprefix,
            construct=f"verifier prefix {vprefix!r} == builder flag prefix {bprefix!r}",
            why="flags the builder creates must be the names the rule watches")
@@ -631,6 +646,43 @@ def flag(run, P, rule):
             if not (x.args and isinstance(x.args[0], ast.Name)):
                 coll_ok = False
                 site = x
+    # table.setdefault(key, []).append(statement): one site that does both
+    sd = [x for x in ast.walk(f.node) if isinstance(x, ast.Call) and isinstance(x.func, ast.Attribute)
+          and x.func.attr == "append" and isinstance(x.func.value, ast.Call)
+          and isinstance(x.func.value.func, ast.Attribute) and x.func.value.func.attr == "setdefault"
+          and len(x.func.value.args) == 2 and isinstance(x.func.value.args[1], ast.List)
+          and not x.func.value.args[1].elts]
+    for x in sd:
+        n_sites += 2
+        if not (x.args and isinstance(x.args[0], ast.Name)):
+            coll_ok = False
+            site = x
+    # a pass that walks the phase map itself counts per phase: its table is started inside
+    # the walk, or keyed by the phase as well
+    walks = _loop_over_phases(f.node, f.arg(0))
+    if walks:
+        lp_, pv_ = walks[0]
+        names_in_loop = {t_.id for s_ in ast.walk(lp_) if isinstance(s_, ast.Assign)
+                         for t_ in s_.targets if isinstance(t_, ast.Name)}
+        tables = set()
+        for x in ast.walk(lp_):
+            if isinstance(x, ast.Subscript) and isinstance(x.value, ast.Name):
+                tables.add((x.value.id, x.slice))
+            if isinstance(x, ast.Call) and isinstance(x.func, ast.Attribute) \
+                    and x.func.attr in ("setdefault", "get") and isinstance(x.func.value, ast.Name) and x.args:
+                tables.add((x.func.value.id, x.args[0]))
+        phase_names = {pv_} | {t_.id for t_ in ast.walk(lp_.target) if isinstance(t_, ast.Name)}
+        made_outside = {s_.targets[0].id for s_ in f.node.body if isinstance(s_, ast.Assign)
+                        and isinstance(s_.targets[0], ast.Name)
+                        and isinstance(s_.value, (ast.Dict, ast.Call))}
+        shared = sorted({t for t, key in tables if t in made_outside and t not in names_in_loop
+                         and not any(isinstance(n_, ast.Name) and n_.id in phase_names
+                                     for n_ in ast.walk(key))})
+        run.ob(rule, f, lp_, not shared,
+               construct="flags are counted per phase" + (f" (one table for all phases: {shared})"
+                                                          if shared else ""),
+               why="a flag name assigned once in each of two phases is no double assignment: "
+                   "counted over the whole method a well-formed method is refused")
     run.ob(rule, f, site, coll_ok and n_sites >= 2,
            construct="writers are collected per flag as a list of statements",
            why="collecting printed texts or a set merges distinct statements that "
